@@ -73,6 +73,8 @@ func checkC14(c *Ctx, r *Report) {
 	checkTemporaryCodes(c, r)
 	// the packed ID-string encodings, character by character (shared with C20, C07)
 	checkPackedDecoders(c, r)
+	// every record type's header and every ID-string length decode (shared with C07)
+	checkMinimalEncodings(c, r, func(m minimalEncoding) bool { return m.Type == "SDR" || m.Type == "FullSensorRecord" })
 
 	walk, mu := c.findSDRWalk()
 	if walk == nil {
